@@ -75,3 +75,201 @@ Section NamesOk.
     pkg_names_ok D && flat_dotted_ok D && class_nodup D && fields_nodup D && members_nodup D
     && map_keys_ok D && wraps_ok D.
 End NamesOk.
+
+(* ======================================================================================
+   Part 1 — strings
+   ====================================================================================== *)
+Lemma str_eqb_eq a b : str_eqb a b = true <-> a = b.
+Proof. apply bytes_eqb_eq. Qed.
+
+Lemma str_eqb_refl a : str_eqb a a = true.
+Proof. apply str_eqb_eq; reflexivity. Qed.
+
+Lemma str_eqb_neq a b : str_eqb a b = false <-> a <> b.
+Proof.
+  split.
+  - intros H E. apply str_eqb_eq in E. congruence.
+  - intros H. destruct (str_eqb a b) eqn:E; [apply str_eqb_eq in E; contradiction | reflexivity].
+Qed.
+
+Lemma byte_eqb_eq a b : Byte.eqb a b = true <-> a = b.
+Proof. split; [apply Byte.byte_dec_bl | apply Byte.byte_dec_lb]. Qed.
+
+Lemma lower_upper_b c : lower_b (upper_b c) = lower_b c.
+Proof. destruct c; reflexivity. Qed.
+
+Lemma is_us_upper_b c : is_us c = false -> is_us (upper_b c) = false.
+Proof. destruct c; cbv; congruence. Qed.
+
+Lemma lower_app a b : lower (a ++ b) = lower a ++ lower b.
+Proof. apply map_app. Qed.
+
+Lemma strip_us_app a b : strip_us (a ++ b) = strip_us a ++ strip_us b.
+Proof. apply filter_app. Qed.
+
+Lemma lower_camel s : forall cap, lower (camel cap s) = lower (strip_us s).
+Proof.
+  induction s as [|c r IH]; intros cap; [reflexivity|].
+  cbn [camel strip_us filter]. destruct (is_us c) eqn:E; cbn [negb].
+  - apply IH.
+  - fold (strip_us r). cbn [lower map]. fold (lower (camel false r)). fold (lower (strip_us r)).
+    rewrite IH. destruct cap; [rewrite lower_upper_b|]; reflexivity.
+Qed.
+
+Lemma strip_us_camel s : forall cap, strip_us (camel cap s) = camel cap s.
+Proof.
+  induction s as [|c r IH]; intros cap; [reflexivity|].
+  cbn [camel]. destruct (is_us c) eqn:E.
+  - apply IH.
+  - cbn [strip_us filter]. fold (strip_us (camel false r)). rewrite IH.
+    destruct cap; [rewrite (is_us_upper_b c E)|rewrite E]; reflexivity.
+Qed.
+
+Lemma lower_map_entry_name f : lower (map_entry_name f) = lower (strip_us f) ++ s_entry.
+Proof. unfold map_entry_name. rewrite lower_app, lower_camel. reflexivity. Qed.
+
+Lemma lower_strip_map_entry_name f : lower (strip_us (map_entry_name f)) = lower (strip_us f) ++ s_entry.
+Proof. unfold map_entry_name. rewrite strip_us_app, strip_us_camel, lower_app, lower_camel. reflexivity. Qed.
+
+(* identifiers contain no dot and are not empty *)
+Lemma ident_char_not_dot c : ident_char c = true -> is_dot c = false.
+Proof. destruct c; cbv; congruence. Qed.
+
+Definition no_dot (s : str) : Prop := Forall (fun c => is_dot c = false) s.
+
+Lemma ident_no_dot s : ident s = true -> no_dot s /\ s <> [].
+Proof.
+  unfold ident. intros H. apply andb_prop in H as [Hn Hf]. split.
+  - apply Forall_forall. intros c Hc. apply ident_char_not_dot.
+    rewrite forallb_forall in Hf. auto.
+  - destruct s; [discriminate | congruence].
+Qed.
+
+Lemma last_seg_aux_no_dot n : forall cur, no_dot n -> last_seg_aux cur n = rev cur ++ n.
+Proof.
+  induction n as [|c r IH]; intros cur H; cbn [last_seg_aux].
+  - now rewrite app_nil_r.
+  - inversion H as [|? ? Hc Hr]; subst. rewrite Hc, IH by assumption. cbn [rev]. now rewrite <- app_assoc.
+Qed.
+
+Lemma last_seg_aux_app_dot a n : forall cur, last_seg_aux cur (a ++ c_dot :: n) = last_seg_aux [] n.
+Proof.
+  induction a as [|c r IH]; intros cur; cbn [app last_seg_aux].
+  - reflexivity.
+  - destruct (is_dot c); apply IH.
+Qed.
+
+Lemma last_seg_app_dot a n : no_dot n -> last_seg (a ++ c_dot :: n) = n.
+Proof. intros H. unfold last_seg. rewrite last_seg_aux_app_dot, last_seg_aux_no_dot by assumption. reflexivity. Qed.
+
+Lemma join_snoc sep p n : p <> [] -> join sep (p ++ [n]) = join sep p ++ sep ++ n.
+Proof.
+  induction p as [|a r IH]; intros H; [congruence|].
+  destruct r as [|b r'].
+  - reflexivity.
+  - change ((a :: b :: r') ++ [n]) with (a :: (b :: r') ++ [n]).
+    change (join sep (a :: (b :: r') ++ [n])) with (a ++ sep ++ join sep ((b :: r') ++ [n])).
+    rewrite IH by congruence. change (join sep (a :: b :: r')) with (a ++ sep ++ join sep (b :: r')).
+    now rewrite <- !app_assoc.
+Qed.
+
+Lemma full_name_snoc pkg p n : exists a, full_name pkg (p ++ [n]) = a ++ c_dot :: n.
+Proof.
+  unfold full_name, dotted. destruct p as [|x r].
+  - destruct (is_nil pkg); [exists []; reflexivity | exists (c_dot :: pkg); reflexivity].
+  - rewrite join_snoc by congruence. cbn [app].
+    destruct (is_nil pkg).
+    + exists (c_dot :: join [c_dot] (x :: r)). reflexivity.
+    + exists (c_dot :: pkg ++ c_dot :: join [c_dot] (x :: r)). cbn [app]. now rewrite <- app_assoc.
+Qed.
+
+Lemma last_seg_full_name pkg p n : no_dot n -> last_seg (full_name pkg (p ++ [n])) = n.
+Proof. intros H. destruct (full_name_snoc pkg p n) as [a ->]. now apply last_seg_app_dot. Qed.
+
+(* ---- the package regex ---- *)
+Definition no_upper_P (s : str) : Prop := Forall (fun c => is_upper c = false) s.
+
+Lemma no_upper_iff s : no_upper s = true <-> no_upper_P s.
+Proof.
+  unfold no_upper, no_upper_P. rewrite forallb_forall, Forall_forall.
+  split; intros H c Hc; specialize (H c Hc); destruct (is_upper c); cbn in *; congruence.
+Qed.
+
+Lemma has_upper_split s : has_upper s = true ->
+  exists l U r, s = l ++ U :: r /\ no_upper_P l /\ is_upper U = true.
+Proof.
+  unfold has_upper. induction s as [|c t IH]; cbn [existsb]; [discriminate|].
+  destruct (is_upper c) eqn:E; cbn [orb]; intros H.
+  - exists [], c, t. repeat split; [constructor | assumption].
+  - destruct (IH H) as (l & U & r & -> & Hl & HU). exists (c :: l), U, r. repeat split; [constructor|]; assumption.
+Qed.
+
+Lemma scan_plain a : forall t i best, no_upper_P a -> no_dot a ->
+  scan_pkg (a ++ t) i best = scan_pkg t (i + length a) best.
+Proof.
+  induction a as [|c r IH]; intros t i best Hu Hd; cbn [app length].
+  - now rewrite Nat.add_0_r.
+  - inversion Hu as [|? ? Hc Hr]; inversion Hd as [|? ? Dc Dr]; subst.
+    cbn [scan_pkg]. rewrite Hc, Dc. cbn [andb]. rewrite IH by assumption. f_equal. lia.
+Qed.
+
+Lemma scan_to_dot a : forall t i best, no_upper_P a -> t <> [] -> (i + length a <> 0)%nat ->
+  scan_pkg (a ++ c_dot :: t) i best = scan_pkg t (S (i + length a)) (Some (i + length a)%nat).
+Proof.
+  induction a as [|c r IH]; intros t i best Hu Ht Hi; cbn [app length].
+  - cbn [scan_pkg]. change (is_upper c_dot) with false. change (is_dot c_dot) with true.
+    destruct t; [congruence|]. cbn [is_nil negb andb]. rewrite Nat.add_0_r in *.
+    destruct (Nat.eqb_spec i 0); [lia|]. reflexivity.
+  - inversion Hu as [|? ? Hc Hr]; subst. cbn [scan_pkg]. rewrite Hc.
+    rewrite IH by (try assumption; lia). f_equal; [lia | f_equal; lia].
+Qed.
+
+Lemma scan_stop_upper U r i best : is_upper U = true -> scan_pkg (U :: r) i best = best.
+Proof. intros H. cbn [scan_pkg]. now rewrite H. Qed.
+
+Lemma is_upper_not_dot U : is_upper U = true -> is_dot U = false.
+Proof. destruct U; cbv; congruence. Qed.
+
+Lemma lstrip_dot_nondot c s : is_dot c = false -> lstrip_dot (c :: s) = c :: s.
+Proof. intros H. cbn [lstrip_dot]. now rewrite H. Qed.
+
+(* the regex splits a fully-qualified name correctly when the package is free of capitals and the
+   top-level type name contains one *)
+Lemma parse_full_name pkg top rest :
+  no_upper_P pkg -> has_upper top = true -> no_dot top ->
+  parse_source_type_name (full_name pkg (top :: rest)) = (pkg, dotted (top :: rest)).
+Proof.
+  intros Hp Ht Hd.
+  destruct (has_upper_split top Ht) as (l & U & r & -> & Hl & HU).
+  assert (Dl : no_dot l).
+  { unfold no_dot in *. rewrite Forall_forall in *. intros c Hc. apply Hd. apply in_or_app. now left. }
+  assert (Hdot : exists tail, dotted ((l ++ U :: r) :: rest) = l ++ U :: tail).
+  { unfold dotted. destruct rest as [|x xs]; cbn [join].
+    - now exists r.
+    - exists (r ++ [c_dot] ++ join [c_dot] (x :: xs)). now rewrite <- app_assoc. }
+  destruct Hdot as [tail Htail].
+  unfold full_name. rewrite !Htail. destruct pkg as [|p0 ps]; cbn [is_nil].
+  - (* no package: neither attempt matches *)
+    unfold parse_source_type_name. change (is_dot c_dot) with true. cbn iota.
+    unfold try_parse.
+    rewrite scan_plain, scan_stop_upper by assumption.
+    change (c_dot :: l ++ U :: tail) with ([c_dot] ++ l ++ U :: tail).
+    cbn [app scan_pkg]. change (is_upper c_dot) with false. change (is_dot c_dot) with true.
+    cbn [Nat.eqb negb andb].
+    rewrite (andb_false_r (negb (is_nil (l ++ U :: tail)))).
+    rewrite scan_plain, scan_stop_upper by assumption.
+    f_equal. destruct l as [|l0 ls].
+    + cbn [app]. cbn [lstrip_dot]. change (is_dot c_dot) with true. cbn iota.
+      apply lstrip_dot_nondot. now apply is_upper_not_dot.
+    + cbn [app lstrip_dot]. change (is_dot c_dot) with true. cbn iota.
+      apply lstrip_dot_nondot. now inversion Dl.
+  - unfold parse_source_type_name. change (is_dot c_dot) with true. cbn iota.
+    unfold try_parse.
+    rewrite scan_to_dot; [| assumption | destruct l; discriminate | cbn [length]; lia ].
+    rewrite scan_plain, scan_stop_upper by assumption.
+    cbn [Nat.add].
+    rewrite firstn_app, Nat.sub_diag, firstn_all, firstn_O, app_nil_r.
+    change (S (length (p0 :: ps))) with (length ((p0 :: ps) ++ [c_dot])).
+    change ((p0 :: ps) ++ c_dot :: l ++ U :: tail) with ((p0 :: ps) ++ [c_dot] ++ l ++ U :: tail).
+    rewrite app_assoc, skipn_app, skipn_all, Nat.sub_diag. reflexivity.
+Qed.
